@@ -343,7 +343,9 @@ pub enum StepKind {
     CrashAtCall(u64),
     /// the k-th mutating disk call from now fails
     DiskFault { k: u64, full: bool },
-    Http { path: String, via: HttpVia, from: String },
+    /// `aim`: 0 = fetch now; 1..=3 = first wait until the second before / of / after the next
+    /// lease expiry in the store (boundary instants of the C20 gauges)
+    Http { path: String, via: HttpVia, from: String, #[serde(default)] aim: u8 },
     /// an API request from an arbitrary source, judged against the ACL model;
     /// `from`/`to` are socket addresses, or unix:<path>, unix:@<abstract>, unix:unnamed
     AclHttp { path: String, from: String, to: String },
@@ -953,7 +955,8 @@ pub fn generate(seed: u64, opts: &GenOpts) -> PlanA {
             StepKind::SwapConfig { cfg: r.below(ncfg as u64) as usize }
         } else if pick(pf.w_http) {
             StepKind::Http {
-                path: r.pick(&["/api/v1/leases.json", "/api/v1/leases.json", "/metrics"]).to_string(),
+                aim: *r.pick(&[0u8, 0, 1, 2, 2, 2, 3]),
+                path: r.pick(&["/api/v1/leases.json", "/api/v1/leases.json", "/metrics", "/metrics"]).to_string(),
                 via: match r.below(8) {
                     0 => HttpVia::Tcp6,
                     1 => HttpVia::UnixAbstract,
